@@ -610,6 +610,36 @@ def plain_allowed(target, flow, key):
 CONTEXTS = ['top', 'value', 'item', 'key', 'flowitem', 'flowkey', 'flowvalue']
 
 
+def long_word_family(full):
+    """Scalars whose words straddle the look-ahead sizes of the inputs (8, 16, 32, 64, 128 characters and
+    their multiples): every indicator / special character placed at every offset around each boundary of a
+    long run of non-blank characters, alone or after a short first word. Yields (target, style, context)."""
+    bounds = [8, 16, 17, 32, 48, 64, 128, 129, 256, 384] if full else [16, 32, 128, 256]
+    offs = (-2, -1, 0, 1) if full else (-1, 0, 1)
+    specials = "#:-,?!&*'\"%@`|>[]{}=~\\é\U0001D11E"
+    for n in bounds:
+        for d in offs:
+            k = n + d
+            for c in specials:
+                for pre in ('', 'w '):
+                    t = pre + 'x' * k + c + 'yz'
+                    for style in 'PDS':
+                        for ctx in ('top', 'value', 'flowitem') + (('item', 'flowvalue') if full else ()):
+                            flow = ctx.startswith('flow')
+                            if style == 'P' and not plain_allowed(t, flow, False):
+                                continue
+                            yield t, style, ctx
+
+
+def present_simple(target, style):
+    """single-line presentation without escapes beyond the quotes themselves"""
+    if style == 'P':
+        return target
+    if style == 'S':
+        return "'" + target.replace("'", "''") + "'"
+    return '"' + target.replace('\\', '\\\\').replace('"', '\\"') + '"'
+
+
 def in_context(ctx, text):
     """embed a presented scalar; returns (document text, index of the scalar among scalar events)"""
     if ctx == 'top':
@@ -864,6 +894,170 @@ def damage(r, text, which):
     if which == 'content-after-docend':
         return r.choice(['a\n... b\n', '--- x\n... y\n', 'k: v\n... # ok comment\n... z\n' if False else 'k: v\n... z\n'])
     return None
+
+
+# ---- structural damage on generated flow collections (the closers are known, so the damaged text is
+# ill-formed whatever else it contains)
+
+def rand_flow_pieces(r, depth, kind=None):
+    """a random flow collection as a list of pieces; closers are ('C', ch) tuples, everything else strings"""
+    kind = kind or r.choice('[{')
+    cl = ']' if kind == '[' else '}'
+    sep = r.choice([', ', ', ', ',', ' , ', ',\n    '])
+    n = r.choice([0, 1, 1, 2, 2, 3])
+    out = [kind, r.choice(['', ' ', '\n    '])]
+
+    def scalar():
+        return r.choice(['a', 'b c', '"q"', "'s'", '1', 'x-y', '"k}"', "']'", 'é'])
+
+    def node(d):
+        x = r.below(10)
+        pre = r.choice(['', '', '', '&n ', '!t ', '&m !t '])
+        if d > 0 and x < 4:
+            return [pre] + rand_flow_pieces(r, d - 1)
+        return [pre + scalar()]
+    for i in range(n):
+        if i:
+            out.append(sep)
+        if kind == '[':
+            x = r.below(10)
+            if x < 5:
+                out += node(depth)
+            elif x < 7:
+                out += [scalar() + ': '] + node(depth)          # single pair
+            elif x < 8:
+                out += ['? '] + node(depth) + [' : '] + node(depth)
+            elif x < 9:
+                out += [': '] + node(depth)                        # empty key
+            else:
+                out += [scalar() + ': ']                           # empty value
+        else:
+            x = r.below(10)
+            if x < 6:
+                out += [scalar() + ': '] + node(depth)
+            elif x < 7:
+                out += [scalar()]                                  # key only
+            elif x < 8:
+                out += ['? '] + node(depth) + [' : '] + node(depth)
+            elif x < 9:
+                out += ['"k' + str(i) + '":'] + node(depth)       # JSON-like adjacent value
+            else:
+                out += [scalar() + ': ']
+    if n and r.chance(1, 6):
+        out.append(',')
+    out.append(r.choice(['', ' ', '\n  ']))
+    out.append(('C', cl))
+    return out
+
+
+def join_pieces(pieces):
+    return ''.join(p[1] if isinstance(p, tuple) else p for p in pieces)
+
+
+def damage_flow(r):
+    """(operator, text): a generated flow collection with one closing bracket wrong"""
+    pieces = rand_flow_pieces(r, 2)
+    closers = [i for i, p in enumerate(pieces) if isinstance(p, tuple)]
+    other = {']': '}', '}': ']'}
+    op = r.choice(['swap', 'swap', 'stray-before-closer', 'stray-before-closer', 'stray-after-entry', 'drop-closer', 'extra-closer'])
+    P = list(pieces)
+    if op == 'swap':
+        i = r.choice(closers)
+        P[i] = ('C', other[P[i][1]])
+    elif op == 'stray-before-closer':
+        i = r.choice(closers)
+        P.insert(i, other[P[i][1]])
+    elif op == 'stray-after-entry':
+        # a closer of the wrong kind right after some piece inside a collection
+        i = r.choice(closers)
+        # the collection closed by P[i] starts at the matching opener: walk back
+        depth, j = 0, i - 1
+        while j >= 0:
+            if isinstance(P[j], tuple):
+                depth += 1
+            elif P[j] in ('[', '{'):
+                if depth == 0:
+                    break
+                depth -= 1
+            j -= 1
+        inside = [k for k in range(j + 1, i + 1)]
+        k = r.choice(inside)
+        P.insert(k, other[P[i][1]])
+    elif op == 'drop-closer':
+        i = r.choice(closers)
+        del P[i]
+    else:
+        P.append(r.choice([']', '}']))
+    body = join_pieces(P)
+    ctx = r.choice(['top', 'top', 'value', 'item', 'nested'])
+    if ctx == 'top':
+        text = body + '\n'
+    elif ctx == 'value':
+        text = 'k: ' + body + '\n'
+    elif ctx == 'item':
+        text = '- ' + body + '\n'
+    else:
+        text = 'top:\n  - k: ' + body + '\n'
+    return 'flow-bracket:' + op, text
+
+
+def damage_quote(r):
+    """(operator, text): a quoted scalar that is still open at the end of the input, in a random context"""
+    q = r.choice('"\'')
+    words = ['a', 'b c', 'x: y', '- z', '# no comment', '[', '{k: v}', 'é', "it''s" if q == "'" else 'say \\"hi\\"', '...', '---x']
+    body = r.choice(['', ' ', '\n', '\n  ', ' \n\n  ']).join(r.choice(words) for _ in range(r.randint(1, 4)))
+    if q == '"' and body.endswith('\\'):
+        body += 'n'
+    pre = r.choice(['', '- ', 'k: ', '? ', '[', '[a, ', '{k: ', '- - ', 'a:\n  b: ', '- &x ', 'k: !t '])
+    return 'open-quote', pre + q + body + r.choice(['', '\n', '\n# end\n'])
+
+
+def damage_tab(r):
+    """(operator, text): a tab used as block indentation in front of a nested node"""
+    inner = r.choice(['b: c', '- c', 'b', '? b', '"q": 1', '[x]', '&a b: c'])
+    shape = r.choice([('a:\n', 0), ('- a:\n', 2), ('top:\n  a:\n', 2), ('a:\n  x: 1\n', 0), ('- - a:\n', 4)])
+    head, ind = shape
+    lead = r.choice(['\t', '\t' + ' ' * (ind + 1), '\t\t']) if ind else r.choice(['\t', '\t ', '\t\t'])
+    if head.endswith('x: 1\n'):
+        # the tab-indented line continues the nested mapping
+        return 'tab-indent', head + '\t' + 'y: 2\n'
+    return 'tab-indent', head + lead + inner + '\n'
+
+
+def damage_longkey(r):
+    n = r.choice([1025, 1026, 1030, 1100, 2048, 5000])
+    style = r.choice(['plain', 'plain', 'dq', 'sq', 'spaced'])
+    if style == 'plain':
+        key = 'x' * n
+    elif style == 'dq':
+        key = '"' + 'q' * n + '"'
+    elif style == 'sq':
+        key = "'" + 'q' * n + "'"
+    else:
+        key = ('ab ' * (n // 3 + 1))[:n].rstrip() + 'z'
+    pre = r.choice(['', 'first: 1\n', '- ', 'top:\n  ', '# c\n\n', 'a: 1\nb: 2\n', '- x\n- ', 'top:\n  k: v\n  '])
+    return 'long-key', pre + key + ': v\n'
+
+
+def damage_second_root(r):
+    first = r.choice(['[a]', '{a: b}', '"a"', "'a'", 'a: b', '- a', '&x a', '!t a', '|\n  lit', '[a,\n b]'])
+    second = r.choice(['[b]', '{c: d}', '"b"', "'b'", '- c', 'c: d', '*x' if first.startswith('&x') else 'z: 1', '!u v'])
+    if first in ('a: b',) and second in ('c: d', 'z: 1'):
+        second = '- c'           # a further pair would continue the mapping
+    if first == '- a' and second == '- c':
+        second = 'c: d'
+    if first.startswith('|'):
+        second = '[b]' if second in ('- c', 'c: d', 'z: 1') else second
+        return 'second-root', '--- ' + first + '\n' + second + '\n'
+    if first in ('"a"', "'a'", '&x a', '!t a') and second in ('c: d', 'z: 1'):
+        return None             # `"a"\nc: d` is not two roots in every reading; skip
+    if first in ('&x a', '!t a'):
+        return None             # a plain scalar may continue on the next line
+    head = r.choice(['', '--- ', '---\n'])
+    return 'second-root', head + first + '\n' + second + '\n'
+
+
+STRUCT_DAMAGES = [damage_flow, damage_flow, damage_flow, damage_quote, damage_tab, damage_longkey, damage_second_root]
 
 
 DAMAGES = ['open-dquote', 'open-squote', 'open-flow-seq', 'open-flow-map', 'mismatch', 'tab-indent', 'bad-entry-indent', 'flow-not-deeper', 'quoted-key-multiline',
